@@ -46,6 +46,15 @@ CHECKS = {
              'the real code (accepted set observed three ways on every vector) and with a brute-force complement in Lean.',
         design_ref='DESIGN.md §5 C04',
         note='Python iterates hash-ordered sets; the model fixes one order, only order-independent observables are compared.'),
+    'C11': dict(
+        technique='Lean 4 proof (invariant by induction over the operation history) over an exact association-list model of DeltaGraph + step-by-step differential correspondence',
+        text='Theorems collapse_sound (after ANY history of insertions and fusion passes the graph reports collapse only if '
+             'every choice vector over {0,1,2} matches an inserted tuple) and run_never_raises (no KeyError/IndexError/'
+             'recursion failure for any history), by induction over the op list with coverage + symmetry invariants. '
+             'The model is exact (dict order included) and is compared with the real class after every operation on '
+             'exhaustive short histories over two indices and random longer ones, always with fuse-after-collapse.',
+        design_ref='DESIGN.md §5 C11',
+        note='Inserted tuples well formed (strictly increasing indices, values in {0,1,2}) as Monomial guarantees; degree fixed to 3.'),
 }
 
 NOT_YET = {}
